@@ -35,6 +35,7 @@ from typing import Any
 
 from mc import c05_build as bld
 from mc import c05_gen as gen
+from mc import c05_gen2 as gen2
 from mc.c05_driver import n_cases
 from mc.common import Ctx, Result, Violation, log, scratch, seeded_order
 from mc.kernel import pmap
@@ -64,6 +65,9 @@ def families(tier: str) -> tuple[dict[str, list[dict]], dict]:
     fam["a"], info["a"] = gen.family_a(quick)
     fam["c"], info["c"] = gen.family_c(3, 3, 2)
     fam["e"], info["e"] = gen.family_e(quick)
+    fam["h"], info["h"] = gen2.family_h(quick)
+    fam["o"], info["o"] = gen2.family_o()
+    info["o"]["specializers"] = gen2.specializer_coverage(fam["o"])
     if not quick:
         fam["b"], info["b"] = gen.family_b()
         fam["d"], info["d"] = gen.family_d()
@@ -81,6 +85,8 @@ def config_class(u: dict) -> str:
     f = u["family"]
     if f == "e":
         return "e-try" if u["name"].startswith("et_") else "e-gen"
+    if f == "h":
+        return "h-" + u["placement"]
     return f
 
 
@@ -88,8 +94,17 @@ def configs(tier: str, cls: str) -> list[tuple[str, str]]:
     dbg = os.environ.get("C05_CONFIGS")  # debugging aid, e.g. "0:single,3:separate"
     if dbg:
         return [tuple(c.split(":")) for c in dbg.split(",")]  # type: ignore[misc]
+    if cls.startswith("h-"):
+        # every placement of the classes over the modules x every layout: quick compiles the pairs of
+        # gen2.H_LAYOUTS_QUICK at opt 0, thorough all pairs at opt 0 and the extreme placements at opt 3 too
+        pl = cls[2:]
+        if tier == "quick":
+            return [("0", lay) for lay in gen2.H_LAYOUTS_QUICK[pl]]
+        return [("0", lay) for lay in bld.LAYOUTS] + ([("3", "single"), ("3", "separate")] if pl in ("one", "split-all") else [])
     if tier == "quick":
         return [("0", "single")]
+    if cls == "o":
+        return [("0", "single"), ("3", "single"), ("3", "multi_file"), ("0", "separate")]
     return {
         "a": [("0", "single"), ("3", "single")],
         "b": [("0", "single"), ("3", "single"), ("3", "multi_file")],
@@ -180,17 +195,22 @@ def _signame(n: int) -> str:
 
 def _unit_detail(u: dict, job: dict) -> dict:
     keep = {k: u[k] for k in ("name", "family", "construct", "sigkey", "src", "doms", "calls", "alias", "shapes", "wrap",
-                              "prelude", "imports", "support") if k in u}
+                              "prelude", "imports", "support", "support_parts", "call_tags", "placement", "depth",
+                              "pattern") if k in u}
     return {"unit": keep, "opt": job["opt"], "layout": job["layout"]}
 
 
 def violation_from_mismatch(u: dict, job: dict, m: dict) -> Violation:
     sig = f"{u['family']}|{u['sigkey']}|{m['cause']}"
+    if u["family"] == "h":
+        # the layout is part of the cause: the three layouts are three different code paths of irbuild / codegen
+        sig = f"h|{job['layout']}|{m['cause']}"
     args = ", ".join(m["args"])
     what = (f"[{u['construct']}; opt {job['opt']}, {job['layout']}] {m['call']}"
             + (f" with ({args})" if m["args"] else "") + (" [a1 is a0]" if m.get("alias") else "")
             + f": compiled {m['compiled']}; interpreter {m['reference']}"
-            + (f"; passed-in objects afterwards compiled {m['comp_state']} vs {m['ref_state']}" if m["kind"] == "mutation" else "")
+            + (f"; passed-in objects afterwards compiled {m['comp_state']} vs {m['ref_state']}"
+               if m["kind"] == "mutation" or u["family"] == "o" else "")
             + f" ({m['kind']}, {m['count']} cases of this unit)")
     if len(what) > 900:
         what = what[:900] + "..."
